@@ -135,6 +135,16 @@ def run(ctx: Ctx):
 
     check_apply_all(ctx, "R15.d")
     check_relational(ctx, "R15.d")
+    # the documented step saves the imported model: numbers and every other class must be written by a vetted method
+    # (a writer override that rounds literals changes the dynamics of every imported model)
+    from sa import pm as _pm15
+
+    from .c11 import check_writer_rows
+
+    check_writer_rows(ctx, "R15.d")
+    printers.check_no_unvetted_override(ctx, "R15.d", "ode", skip=_pm15.NOT_FOR_WRITER)
+    # ... and the rhs is generated by the NumPy backend: no print method of it may be replaced by an unvetted one
+    printers.check_no_unvetted_override(ctx, "R15.d", "numpy", skip=("sign", "DiracDelta"))
 
 
 def check_myokit_export(ctx: Ctx, rule: str):
